@@ -701,6 +701,8 @@ func (w *World) Exec(op *Op) (out Outcome) {
 				out = Outcome{St: stSkip}
 			case deadlockPanic:
 				out = Outcome{St: stDeadlock}
+			case budgetPanic:
+				out = Outcome{St: stBudget}
 			default:
 				out = Outcome{St: stPanic}
 				w.lastErr = fmt.Sprint(r)
@@ -708,6 +710,7 @@ func (w *World) Exec(op *Op) (out Outcome) {
 		}
 	}()
 	w.lastRes = -1
+	S.beginOp()
 	res, err := w.run(op)
 	if err != nil {
 		w.lastErr = err.Error()
